@@ -242,6 +242,11 @@ impl Verify for FixedLpc {
         for (t, v) in self.warm_up().iter().enumerate() {
             verify_sample_range!("warm_up[{t}]", *v, self.bits_per_sample())?;
         }
+        verify_true!(
+            "warm_up.len",
+            self.warm_up().len() == self.residual().warmup_length(),
+            "must be equal to the warm-up length of the residual"
+        )?;
         self.residual()
             .verify()
             .map_err(|err| err.within("residual"))
@@ -257,6 +262,12 @@ impl Verify for Lpc {
         for (t, v) in self.warm_up().iter().enumerate() {
             verify_sample_range!("warm_up[{t}]", *v, self.bits_per_sample())?;
         }
+        verify_true!(
+            "warm_up.len",
+            self.warm_up().len() == self.order()
+                && self.warm_up().len() == self.residual().warmup_length(),
+            "must be equal to the LPC order and to the warm-up length of the residual"
+        )?;
         self.residual()
             .verify()
             .map_err(|err| err.within("residual"))
